@@ -14,7 +14,9 @@ EXPLANATION = ("D1 windows keep size, offset and setback (plain copies of the so
 DECIDED = ["D1 window geometry is copied field by field", "D2 rotation covariance, necessary part (dependence sets)", "D3 one convention-conversion point for azimuths",
            "D4 wall azimuth / tilt / position / edge polygon and both kinds of shade (rectangle, vertex-defined) as formulas in the BDL quantities, incl. the sign of the building rotation "
            "and the three-vertex threshold (rules/_c03geom.py)", "D5 a storey's data wins over the space's own where the statement says so",
-           "D6 the default tilt of an element without TILT (16 cells); the parser's Polygon helpers do not round"]
+           "D6 the default tilt of an element without TILT (16 cells); the parser's Polygon helpers do not round",
+           "D8 a polygon's area is the unsigned shoelace sum (abs on the way to the return), in the parser and in the model",
+           "D9 the wall angle the parser hands over is relative to the space (reads neither the space's rotation nor the global deviation): G + As + Aw counts each once"]
 UNDECIDED = ["positions, normals, areas within 1 cm as numbers", "outline reproduction of floors/ceilings (polygon of a horizontal element)", "the 2D turn that carries vertex-defined shade corners into their plane"]
 ASSUMPTIONS = ["nalgebra point/rotation constructors"]
 LEVEL_TEXT = ("Partial: necessary conditions of the geometry property are decided from def-use provenance and normalised formulas of the converter's geometry literals - window "
